@@ -121,6 +121,7 @@ func main() {
 		os.Exit(1)
 	}
 
+	funcs := map[string][]string{} // file -> functions declared (so that a modelled function that vanished is noticed)
 	entries := map[string]*Entry{}
 	add := func(e *Entry, line int) {
 		k := e.Key()
@@ -213,6 +214,7 @@ func main() {
 				continue
 			}
 			fn := funcName(fd)
+			funcs[rel] = append(funcs[rel], fn)
 			// ---- bounds checks inside this function
 			for _, p := range sites[rel] {
 				start, end := fset.Position(fd.Pos()), fset.Position(fd.End())
@@ -270,6 +272,7 @@ func main() {
 	res := map[string]interface{}{
 		"generator":        "translate/bce_inventory.go",
 		"compiler_reports": nfound,
+		"functions":        funcs,
 		"entries":          list,
 	}
 	b, _ := json.MarshalIndent(res, "", " ")
